@@ -128,10 +128,73 @@ fn full_cases(r: &mut Rng, n: usize, sink: &mut Sink) {
     record_consists(false);
 }
 
+/// The real `SpeedLimitTrainSim::walk()` from start to end against `sl_full_walk` (TrainFull.v): the
+/// model is started from the implementation's initial state and consist and must arrive at the same
+/// final train state, brake state, braking-point index and complete consist state after the same
+/// number of steps -- or stop with the same error.
+fn full_walk_cases(r: &mut Rng, n: usize, sink: &mut Sink) {
+    use crate::c12::sl_opts;
+    use crate::train::*;
+    let mut t = 0usize; let mut made = 0usize;
+    while made < n && t < 20 * n + 20 {
+        let mut rr = r.fork();
+        let mut o = sl_opts(&mut rr, t); o.schedule = 0; o.default_consist = t % 4 != 3; o.max_total = 14000.0;
+        o.size = [0, 1, 0, 2][t % 4]; o.clean_start = true; o.profile = [0, 2, 1, 3, 0][t % 5];
+        if t % 3 != 0 { o.ramp_up_time = None; }
+        t += 1;
+        let (train, route, made_sim) = sl_make(&mut rr, &o);
+        let mut sim = match made_sim { Ok(s) => s, Err(_) => continue };
+        if !is_strap(&sim.train_res) || has_hybrid(&sim.loco_con) { continue; }
+        if catch(std::panic::AssertUnwindSafe(|| sim.extend_path(&route.network, &route.path))).map(|x| x.is_err()).unwrap_or(true) { continue; }
+        sim.set_save_interval(None);
+        let rp = res_params(&sim.train_res);
+        let env = sl_env(&sim, &rp);
+        let fmax = match sim.loco_con.force_max() { Ok(f) => f.value, Err(_) => continue };
+        let end = sim.path_tpc.offset_end().value;
+        let (pre, pre_cache, pre_fb, pre_idx, pre_con) = (sim.state, res_cache(&sim.train_res), fb_of(&sim), braking_idx(&sim), sim.loco_con.clone());
+        // the real walk, in a thread with a wall-clock bound
+        let (tx, rx) = std::sync::mpsc::channel();
+        let mut c = sim.clone();
+        std::thread::spawn(move || {
+            let res = std::panic::catch_unwind(std::panic::AssertUnwindSafe(|| c.walk()));
+            let _ = tx.send((c, match res { Ok(Ok(())) => Ok(()), Ok(Err(e)) => Err(train_err_code(&e)), Err(_) => Err((-1, "panic".to_string())) }));
+        });
+        let (post, res) = match rx.recv_timeout(std::time::Duration::from_secs(20)) { Ok(x) => x, Err(_) => continue };
+        let steps = post.state.i.saturating_sub(pre.i);
+        if steps > 6000 { continue; }
+        let mut tags = route.tags.clone(); tags.extend(train.tags.clone());
+        tags.push("sim:speed_limit".into()); tags.push(format!("walk_steps:{}", bucket(steps / 100)));
+        tags.push(format!("units:{}", pre_con.loco_vec.len()));
+        let mut fails = vec![];
+        let outcome = match &res {
+            Ok(()) => {
+                tags.push("result:ok".into());
+                oracle_levels(&post.state, &post.loco_con, &mut fails);
+                // where an accepted walk ends (theorem sl_full_walk_end)
+                let (x, v) = (post.state.offset.value, post.state.speed.value);
+                if !(x >= end - 1000.0 * 0.3048 && (x >= end || v == 0.0)) { fails.push(format!("walk() returned Ok at offset {} with speed {} although the path ends at {}", x, v, end)); }
+                let p = Post { st: post.state, cache: res_cache(&post.train_res), fb: Some(fb_of(&post)), idx: braking_idx(&post) };
+                let mut oo = outs_post(&p); oo.extend(outs_consist(&post.loco_con)); Outcome::Ok(oo)
+            }
+            Err((-1, m)) => { tags.push("result:panic".into()); Outcome::Panic(m.clone()) }
+            Err((998, m)) => { let (c, _) = consist_err_code(&anyhow::anyhow!("{}", m)); tags.push(format!("result:err{}", c)); Outcome::Err(c, m.clone()) }
+            Err((c, m)) => { tags.push(format!("result:err{}", c)); Outcome::Err(*c, m.clone()) }
+        };
+        let in_domain = !post.loco_con.loco_vec.iter().any(|l| l.state.pwr_out_max.value < 0.0);
+        let coq = format!("x_sl_full_walk {}%N {} {} {} {} (Build_SLState {} {} {} {}) {}", steps + 5, env.env_coq, env.pts_coq, cf(end), cf(fmax),
+            coq_tstate(&pre), coq_cache(&pre_cache), coq_fb(&pre_fb), cnat(pre_idx), coq_consist(&pre_con));
+        sink.put(Case { id: format!("sl_full_walk/{}", t - 1), kind: "sl_full_walk".into(), coq, outcome, tags,
+            input: json!({"sim": "speed_limit", "route": route_json(&route), "train": train_json(&train), "dt": o.dt, "ramp_up_time": o.ramp_up_time, "whole_walk": true}),
+            oracle_fail: fails, known: vec![], in_domain });
+        made += 1;
+    }
+}
+
 pub fn run(seed: u64, n: usize, sink: &mut Sink) {
     let mut r = Rng::new(seed ^ 0xC11);
     let n_full = n * 2 / 5;
     { let mut rf = r.fork(); full_cases(&mut rf, n_full, sink); }
+    { let mut rf = r.fork(); full_walk_cases(&mut rf, (n / 120).max(3), sink); }
     let n = n - n_full;
     let mut made = 0usize; let mut t = 0usize;
     while made < n {
